@@ -66,6 +66,10 @@ def parse_smtlib(text: str):  # noqa: C901
                 if char in ('\n', '\r'):
                     break
             comment = ''.join(comment)
+            if comment[-1] not in ('\n', '\r'):
+                # the input ends inside the comment: a comment leaf always
+                # carries its line break (the writers rely on it)
+                comment += '\n'
             if cur_expr is not None:
                 cur_expr.append(Node(comment))
             else:
